@@ -189,6 +189,10 @@ class Model:
             return -1 - n
         if k == "lit":
             return n
+        if k == "alias" and self.open:
+            # an id that collides with an operation in progress under truncation / sign confusion
+            base = sorted(self.open)[n % len(self.open)]
+            return [base + 2**31, base + 2**32, base - 2**31, base + 2**63, base + 2**64, -base, base + 256, base + 65536][n % 8]
         # never / fresh (and fallbacks): an id that was never issued or received
         used = set(self.issued) | set(self.open) | set(self.completed)
         cand = (max(used) if used else 0) + 1 + (n % 5)
